@@ -336,8 +336,8 @@ func VerifMain(args []string) int {
 			fmt.Fprintln(os.Stderr, err)
 			return 2
 		}
-		if ch == nil || ch.Replay == nil {
-			fmt.Fprintln(os.Stderr, "no replay for", args[1])
+		if ch == nil {
+			fmt.Fprintln(os.Stderr, "no such check", args[1])
 			return 2
 		}
 		c := newCtx(ch.ID, "quick", "replay", seed, 10*time.Minute)
@@ -377,8 +377,25 @@ func VerifMain(args []string) int {
 		var ok bool
 		if f, special := vClassReplay[v.Class]; special {
 			ok = f(c, &v)
-		} else {
+		} else if ch.Replay != nil {
 			ok = ch.Replay(c, &v)
+		} else {
+			// no dedicated replay: the shard that reported the violation is run again (the
+			// spaces of these checks are enumerated in a fixed order, so the same member
+			// fails again if the tree still misbehaves)
+			for _, tier := range []string{"quick", "thorough"} {
+				for _, sh := range ch.Shards(tier) {
+					if sh.Name == v.Shard && !ok {
+						c2 := newCtx(ch.ID, tier, sh.Name, seed, 10*time.Minute)
+						sh.Run(c2)
+						if w, hit := c2.viol[v.Sig()]; hit {
+							ok = true
+							c.viol[v.Sig()] = w
+							c.violOrder = append(c.violOrder, v.Sig())
+						}
+					}
+				}
+			}
 		}
 		for _, s := range c.violOrder {
 			w := c.viol[s]
